@@ -14,7 +14,10 @@ EXT_URIS = ["http://ex.test/b.json", "http://ex.test/sub/c.json", "http://ex.tes
             "http://other.test/e.json", "http://ex.test/B.json",          # B.json / b.json: paths are case-sensitive
             "http://ex.test/sub%2Fc.json"]      # not sub/c.json: a reserved character and its escape differ (RFC 3986 2.2)
 ROOT_BASES = ["", "", "http://ex.test/root.json", "http://ex.test/dir/root.json", "http://ex.test/root.json#",
-              "http://ex.test/sub/deep/r.json"]
+              "http://ex.test/sub/deep/r.json", "http://ex.test/root.json", "http://ex.test/dir/root.json",
+              # a document that is published under the URI of a bundled metaschema (somebody's adapted copy): inside
+              # it, "#/definitions/..." means ITS definitions
+              "http://json-schema.org/draft-07/schema#", "http://json-schema.org/draft-04/schema"]
 EXOTIC_BASES = ["urn:example:root", "tag:ex.test,2020:root", "x-sch://ex/root.json"]
 TWINS = ["http://ex.test/sub/c.json", "http://ex.test/sub%2Fc.json"]
 OPTIONAL = list("~!$&'()*+,;=:@?-._") + list("abm01") + ["/", "/", "/"]
